@@ -1,8 +1,11 @@
 #!/usr/bin/env python3
 """seedcheck.py <Cxx> <a|b|...> [check-id ...]: confirm a sub-agent's seeded change in its scratch worktree
-(builds, suite passes, demo passes without / fails with the change), run our checks against it on /repo,
-and store it under /verif/seeded/<Cxx><x>/."""
-import json, os, shutil, subprocess, sys
+(applies, builds, suite passes, demo passes without / fails with the change), run our checks against it on /repo,
+and store it under /verif/seeded/<Cxx><x>/ (patch.diff, demo, meta.json).
+
+The sub-agent delivers /tmp/seed_<Cxx>/<x>/{patch.diff, demo_test.go (first line `// dir: <package dir>`), notes.md}
+(older format: meta.json with demo_path)."""
+import json, os, re, shutil, subprocess, sys
 from pathlib import Path
 
 pid, x = sys.argv[1], sys.argv[2]
@@ -10,16 +13,30 @@ checks = sys.argv[3:] or [pid]
 wt = Path("/tmp/wt_%s" % pid)
 sd = Path("/tmp/seed_%s/%s" % (pid, x))
 env = dict(os.environ, GOFLAGS="-mod=mod", GOPROXY="off", GOSUMDB="off", GOTOOLCHAIN="local")
-meta = json.loads((sd / "meta.json").read_text())
-demo_rel = meta["demo_path"]
-demo_src = sd / Path(demo_rel).name
+meta = {}
+if (sd / "meta.json").exists():
+    meta = json.loads((sd / "meta.json").read_text())
+    demo_rel = meta["demo_path"]
+    demo_src = sd / Path(demo_rel).name
+else:
+    demo_src = sd / "demo_test.go"
+    first = demo_src.read_text().splitlines()[0]
+    m = re.match(r"//\s*dir:\s*(\S+)", first)
+    assert m, "demo has no `// dir:` header"
+    demo_rel = "%s/zz_seed_%s%s_test.go" % (m.group(1), pid, x)
+    meta = {"property": pid, "demo_path": demo_rel, "notes": (sd / "notes.md").read_text() if (sd / "notes.md").exists() else ""}
+tests = re.findall(r"^func (Test\w+)\(", demo_src.read_text(), re.M)
+runpat = "^(%s)$" % "|".join(tests)
+
 
 def sh(cmd, cwd=wt, timeout=1500):
     p = subprocess.run(cmd, shell=True, cwd=cwd, env=env, stdout=subprocess.PIPE, stderr=subprocess.STDOUT, text=True, timeout=timeout)
     return p.returncode, p.stdout
 
+
 def clean():
     sh("git checkout -- . && git clean -fdq")
+
 
 ran = {}
 clean()
@@ -27,7 +44,7 @@ rc, out = sh("git apply --check %s" % (sd / "patch.diff")); ran["apply_check"] =
 assert rc == 0, out
 pkg = "./" + str(Path(demo_rel).parent)
 shutil.copy(demo_src, wt / demo_rel)
-rc, out = sh("go test -vet=off -count=1 -run 'Seed|seed' %s" % pkg); ran["demo_unchanged_rc"] = rc
+rc, out = sh("timeout 300 go test -vet=off -count=1 -run '%s' %s" % (runpat, pkg)); ran["demo_unchanged_rc"] = rc
 print("demo on unchanged:", rc)
 if rc != 0:
     print(out[-1500:])
@@ -37,7 +54,7 @@ rc, out = sh("go build ./... && go test -vet=off -count=1 ./... 2>&1 | tail -30"
 print("suite with change:", rc, "FAIL" in out)
 ran["suite_with_change_has_FAIL"] = "FAIL" in out
 shutil.copy(demo_src, wt / demo_rel)
-rc, out = sh("go test -vet=off -count=1 -run 'Seed|seed' %s" % pkg); ran["demo_changed_rc"] = rc
+rc, out = sh("timeout 300 go test -vet=off -count=1 -timeout 120s -run '%s' %s" % (runpat, pkg)); ran["demo_changed_rc"] = rc
 print("demo with change:", rc)
 clean()
 ok = ran["demo_unchanged_rc"] == 0 and ran["suite_with_change_rc"] == 0 and not ran["suite_with_change_has_FAIL"] and ran["demo_changed_rc"] != 0
@@ -64,8 +81,11 @@ finally:
 dst = Path("/verif/seeded/%s%s" % (pid, x))
 dst.mkdir(parents=True, exist_ok=True)
 shutil.copy(sd / "patch.diff", dst / "patch.diff")
-shutil.copy(demo_src, dst / demo_src.name)
+shutil.copy(demo_src, dst / Path(demo_rel).name)
+if (sd / "notes.md").exists():
+    shutil.copy(sd / "notes.md", dst / "notes.md")
 meta["confirmation"] = ran
+meta["demo_tests"] = tests
 meta["what_i_ran"] = ("tools/seedcheck.py: in scratch worktree: git apply --check; demo on unchanged tree (pass); apply patch; go build ./... && go test ./... (pass); "
                       "demo with change (fail); then applied to /repo, ran the listed checks, reverted with git checkout")
 meta["detection"] = det
